@@ -214,3 +214,92 @@ Theorem C10_main_unit_inputs :
 Proof. exact h5_unit_inputs. Qed.
 Print Assumptions C10_main_unit_inputs.
 End ScalingFamily.
+
+(** ** Tie of the file layer to the source by translation (second wave).  [Gen/Gen_H5Index.v] is
+    regenerated from src/IO/HDF5File.cpp on every run (translate/h5index2coq.py): the vectors
+    [_appendData] hands to the HDF5 library, the initial extents of every dataset, and for every
+    append overload the (dataset, source, record count) of its [_appendData] calls in call order.
+    What the library does with those vectors is Model/H5Slab.v. *)
+From Inovesa Require Import Model.H5Slab Gen.Gen_H5Index Proofs.H5SlabP Proofs.H5IndexP.
+
+(** one [_appendData] on any dataset of the file, holding r complete records: the hyperslab the
+    generated start / count vectors select in the dataset extended to the generated extent is filled
+    with the record - i.e. the model's [append_data]; ds.dims then counts r+1 records; the memory
+    space has the selection's shape; the file space is fetched after the extension *)
+Theorem C10_source_append_is_model :
+  forall (A : Type) (fill : A) z d r (file src : list A),
+    0 <= s_nb z -> 0 <= s_n z -> 0 <= s_nmax z -> 0 <= s_imp z -> 0 <= s_np z -> 0 <= r ->
+    Z.of_nat (length file) = r * prodZ (file_inner z d) -> prodZ (file_inner z d) <= Z.of_nat (length src) ->
+    let dims := r :: tl (gen_ds_dims true true (s_nb z) (s_n z) (s_n z) (s_nmax z) (s_imp z) (s_np z) d) in
+    gen_append_call fill dims 1 src file = append_data (file_inner z d) file src /\
+    gen_ad_dims_after dims 1 = (r + 1) :: file_inner z d /\
+    gen_ad_mem dims 1 = gen_ad_count dims 1 /\ gen_ad_order_ok = true.
+Proof. exact (@gen_append_record). Qed.
+Print Assumptions C10_source_append_is_model.
+
+(** any record count (appendRFKicks passes kicks.size()): the first [size * prod inner] elements are appended *)
+Theorem C10_source_append_any_size :
+  forall (A : Type) (fill : A) inner n0 size (file src : list A),
+    Forall (fun d => 0 <= d) inner -> 0 <= n0 -> 0 <= size ->
+    Z.of_nat (length file) = n0 * prodZ inner -> size * prodZ inner <= Z.of_nat (length src) ->
+    gen_append_call fill (n0 :: inner) size src file = file ++ firstn (Z.to_nat (size * prodZ inner)) src /\
+    gen_ad_dims_after (n0 :: inner) size = (n0 + size) :: inner /\
+    gen_ad_mem (n0 :: inner) size = gen_ad_count (n0 :: inner) size /\
+    gen_ad_order_ok = true.
+Proof. exact (@gen_append_call_appends). Qed.
+Print Assumptions C10_source_append_any_size.
+
+(** the constructor creates every growing dataset empty, with the inner dimensions of the model *)
+Theorem C10_source_dataset_extents :
+  forall z d, gen_ds_dims true true (s_nb z) (s_n z) (s_n z) (s_nmax z) (s_imp z) (s_np z) d = 0 :: file_inner z d.
+Proof. exact gen_ds_dims_is_model. Qed.
+Print Assumptions C10_source_dataset_extents.
+
+(** the append overloads call [_appendData] on the datasets, and in the order, of the model's log
+    (so C10_record_counts_agree ... C10_ps_axis_schedule are statements about these calls) *)
+Theorem C10_source_append_orders :
+  forall k,
+    (forall a, append_ps a k = ds_of (gen_append_ps a) k) /\
+    append_ef k = ds_of (gen_append_ef true) k /\
+    append_wake k = ds_of gen_append_wake k /\
+    append_tracks k = ds_of gen_append_tracks k /\
+    append_padded k = ds_of gen_append_padded k.
+Proof. exact gen_append_orders_are_model. Qed.
+Print Assumptions C10_source_append_orders.
+
+(** every dataset is appended from the member the property says it describes (profile <- x projection,
+    energy profile <- y projection, length / spread <- rms of axis 0 / 1, position / mean energy <- first
+    moment of axis 0 / 1, population <- measured charge, phase space <- grid, ...), one record per call;
+    and every growing dataset is appended by some overload *)
+Theorem C10_source_record_sources :
+  (forall d s n, In (d, s, n) all_append_tables -> s = expected_source d /\ n = 1) /\
+  (forall d, In d all_dsets -> exists s n, In (d, s, n) all_append_tables).
+Proof. exact gen_sources_are_expected. Qed.
+Print Assumptions C10_source_record_sources.
+
+(** the buffers PhaseSpace hands over have the shape of the dataset's records: for every append call whose
+    source is a PhaseSpace member, the extents of that member (from PhaseSpace's constructor, Gen_Moments.v)
+    minus the subscripted leading dimensions are the model's [mem_inner] and the inner dimensions the
+    HDF5File constructor gave the dataset (so C10_dataset_rows_are_bunches applies with equal strides) *)
+From Inovesa Require Import Model.MomentsIR Gen.Gen_Moments Proofs.H5MemP.
+Theorem C10_source_memory_shapes :
+  forall z d s n sh, In (d, s, n) all_append_tables -> ps_buffer_shape z s = Some sh ->
+    sh = mem_inner z d /\
+    sh = tl (gen_ds_dims true true (s_nb z) (s_n z) (s_n z) (s_nmax z) (s_imp z) (s_np z) d).
+Proof. exact gen_memory_shapes. Qed.
+Print Assumptions C10_source_memory_shapes.
+
+(** ... and cell (b,x,y) of the grid sits at flat position (b*n + x)*n + y (bunch-major, row-major) *)
+Theorem C10_source_data_is_bunch_major :
+  forall nb n b x y, gidx 0 (gen_extents_data nb n n) [b; x; y] [1; 1; 1] = [(b * n + x) * n + y].
+Proof. exact gen_data_is_bunch_major. Qed.
+Print Assumptions C10_source_data_is_bunch_major.
+
+(** non-vacuity: two records of a 2x3 dataset, a third appended through the generated vectors *)
+Example C10_source_example :
+  gen_append_call 0 [2; 2; 3] 1 [7; 8; 9; 10; 11; 12; 99] [1; 1; 1; 1; 1; 1; 2; 2; 2; 2; 2; 2]
+  = [1; 1; 1; 1; 1; 1; 2; 2; 2; 2; 2; 2; 7; 8; 9; 10; 11; 12] /\
+  gen_ad_start [2; 2; 3] 1 = [2; 0; 0] /\ gen_ad_count [2; 2; 3] 1 = [1; 2; 3] /\ gen_ad_extent [2; 2; 3] 1 = [3; 2; 3] /\
+  In (DEProfile, SrcProj 1, 1) all_append_tables /\
+  ps_buffer_shape (mkSizes 3 16 64 32 0) (SrcProj 1) = Some [3; 16].
+Proof. vm_compute. repeat split. tauto. Qed.
